@@ -178,6 +178,18 @@ Proof.
   rewrite E, firstn_all, skipn_all, lex_loop_nil. reflexivity.
 Qed.
 
+Lemma block_comment_opaque_l :
+  forall l f,
+    match blk O l with
+    | Some n => lex_loop (S f) (47 :: 42 :: l) =
+                option_map (cons (KCom, 47 :: 42 :: firstn n l)) (lex_loop f (skipn n l))
+    | None => lex_loop (S f) (47 :: 42 :: l) = Some [(KErr, 47 :: 42 :: l)]
+    end.
+Proof.
+  intros l f. destruct (blk O l) eqn:E;
+    [exact (block_comment_one_item_l l n f E)|exact (block_comment_unterminated_l l f E)].
+Qed.
+
 (* ---------------------------------------------------------------- where a parameter can start *)
 Ltac np_tac :=
   repeat match goal with
